@@ -184,3 +184,14 @@ func resolveVocab(P *Program) *Vocab {
 }
 
 var serverPkgs = []string{"nfs", "dir", "inode", "fstxn", "alloctxn", "shrinker", "cache", "dcache", "fh", "super"}
+
+var vocabCache = map[*Program]*Vocab{}
+
+func resolveVocabCached(P *Program) *Vocab {
+	if v, ok := vocabCache[P]; ok {
+		return v
+	}
+	v := resolveVocab(P)
+	vocabCache[P] = v
+	return v
+}
